@@ -7,7 +7,18 @@ d=/tmp/sv-$name
 rm -rf $d; mkdir -p $d
 git -C /repo worktree add -q --detach $d/repo HEAD || exit 2
 trap 'git -C /repo worktree remove --force $d/repo; rm -rf $d' EXIT
-if [ "$patch" != "-" ]; then git -C $d/repo apply $patch || { echo "$name NOAPPLY"; exit 2; }; fi
+# (a seeded patch written against an earlier /repo HEAD may overlap a later fix: commit; it is then tried on the
+# parents of HEAD, newest first - the checks that judge it do not depend on that fix)
+if [ "$patch" != "-" ]; then
+  applied=""
+  for back in 0 1 2 3; do
+    git -C $d/repo checkout -q --detach HEAD 2>/dev/null; git -C $d/repo reset -q --hard $(git -C /repo rev-parse HEAD~$back)
+    if git -C $d/repo apply $patch 2>/dev/null; then applied=$back; break; fi
+  done
+  [ -n "$applied" ] || { echo "$name NOAPPLY"; exit 2; }
+  [ "$applied" != "0" ] && name="$name(on HEAD~$applied)"
+  (cd $d/repo && GOFLAGS=-mod=mod GOPROXY=off go build ./... 2>/dev/null) || { echo "$name NOBUILD"; exit 2; }
+fi
 rsync -a --exclude .build --exclude replays/found --exclude .git /verif/ $d/verif/
 sed -i "s#=> /repo#=> $d/repo#" $d/verif/go.mod
 cd $d/verif
